@@ -10,7 +10,7 @@ from .. import core, gen, hist, model
 from ..session import Outcome
 from . import PropBase, steps_with_ids
 
-FAULTS = ("buffer_reuse", "other_carrier_first", "shrink", "clear", "mutate_loaded")
+FAULTS = ("buffer_reuse", "other_carrier_first", "shrink", "clear", "mutate_loaded", "exhaust_scan")
 
 MALFORMED = ["[1, 2", '{"a": 1', "{'a': 1}", "[1,]", "nul", "tru", "01", "1.", ".5", "--1", '"unterminated', "{]", "[[]", "1 2", "{\"a\":}",
              "\x00", "\x7f", "a\x00b", "﻿1", " 1 ", "\t[1]\n", "é", "中文", "\U0001f600", "1,2", "(1, 2)", "{1, 2}", "b'x'", "None", "True",
@@ -93,6 +93,12 @@ class C14(PropBase):
                 order = list(hist.CARRIERS)
                 rng.shuffle(order)
                 steps.append({"op": "carriers", "t": t, "s": s, "order": order, "mod": mod})
+                if "exhaust_scan" in sw and rng.random() < 0.4:
+                    # the first carrier is first offered from every stack depth at which the call cannot
+                    # complete; the text is more often Python-literal than JSON here (two decoders in a row)
+                    steps[-1]["scan"] = True
+                    if rt is not None and rng.random() < 0.5:
+                        steps[-1]["s"] = rt
             elif kind == "text_vs_value":
                 if jt is None or not _is_composite(t, lk):
                     continue
@@ -130,6 +136,8 @@ class C14(PropBase):
         if op == "carriers":
             T = sess.T(step)
             outs = {}
+            if step.get("scan"):
+                sess.scan_exhaust(step, typelib.unmarshal, T, sess.V(hist.carry(step["s"], step["order"][0])))
             for c in step["order"]:
                 x = sess.V(hist.carry(step["s"], c))
                 outs[c] = sess.guarded(sess.call, step, typelib.unmarshal, T, x)
